@@ -15,6 +15,9 @@ for f in theirs["findings"]:
     k = (f["property"], f.get("sig", ""), f.get("what", ""))
     if k not in seen:
         ours["findings"].append(f); seen.add(k)
+# an entry that one side has repaired (status fixed, same property and sig) must not come back as open from the other side
+fixed = {(f["property"], f.get("sig", "")) for f in ours["findings"] if f["status"] == "fixed" and f.get("sig")}
+ours["findings"] = [f for f in ours["findings"] if not (f["status"] == "open" and (f["property"], f.get("sig", "")) in fixed)]
 json.dump(ours, open("known_findings.json", "w"), indent=1)
 PY
 python3 tools/mkmanifest.py
